@@ -64,6 +64,12 @@ var staticContexts = []struct{ tmpl, typ string }{
 	{"select key where %s between 1 and 5", "num"}, {"select key where 1 between %s and 5", "num"}, {"select key where 1 between 0 and %s", "num"}, {"select key where str(%s) = '1'", "num"},
 	{"select key where !(%s > 1)", "num"}, {"select %s as n where key = 'a'", "num"}, {"select key, %s * 2 as n where n > 1", "num"}, {"select key where substr(key, 0, %s) = 'a'", "num"},
 	{"select key, sum(%s) where key ^= 'a' group by key", "num"}, {"select key where l2_distance(list(1, 2), list(%s, 2)) > 0", "num"},
+	// the fault next to a constant that absorbs it (`false & x`, `true | x`): a planner that validates after
+	// simplifying the filter never sees the fault
+	{"select * where false & %s", "bool"}, {"select * where %s & false", "bool"}, {"select * where true | %s", "bool"}, {"select * where %s | true", "bool"},
+	{"select * where %s and false", "bool"}, {"select * where true or %s", "bool"}, {"select * where (1 = 2) & %s", "bool"}, {"delete where false & %s", "bool"},
+	{"select key, true | %s where key = 'a'", "bool"}, {"select key, false & %s as b where key = 'a'", "bool"}, {"select * where key = 'a' & (false & %s)", "bool"},
+	{"select * where false & upper(%s) = 'A'", "str"}, {"select * where true | %s = 'a'", "str"}, {"select * where false & %s > 1", "num"}, {"select key, true | %s > 1 where key = 'a'", "num"},
 	// places of a select field where the aggregation plan does not look for aggregates: an aggregate there is a fault
 	{"select key, str(%s) where key ^= 'a'", "num"}, {"select !(%s > 1) as b where key ^= 'a'", "num"}, {"select key, 1 between %s and 5 where key ^= 'a'", "num"},
 	{"select key, 2 in (%s, 3) where key ^= 'a'", "num"}, {"select key, sum(int(str(%s))) where key ^= 'a' group by key", "num"},
@@ -74,6 +80,9 @@ var staticForms = []string{
 	"put ('a', value)", "put ('a', upper(value))", "put ('a', 'b'), ('c', value + 'x')", "remove key", "remove upper(key)", "remove value", "remove 'a', key + 'x'",
 	"select * where key", "select * where 1", "select * where upper(key)", "select * where key + 'a'", "delete where value", "delete where strlen(key)",
 	"select key, sum(count(1)) where key = 'a'", "select key where key = 'a' order by nosuch", "select split(key, ',') as l where key = 'a' order by l",
+	// an aggregate behind a field name used in WHERE (aggregates are not functions there)
+	"select count(1) as c where c > 0", "select key, sum(int(value)) as s where key ^= 'k' & s > 10 group by key", "select count(1) as c, c + 1 as d where d > 0",
+	"select key, count(1) as c where upper(str(c)) = '1' group by key",
 	// the type of a select field that uses a field name is only final once that name is resolved
 	"select key as a, a + 'x' as s where s > 1", "select a + 'x' as s, key as a where s = 1", "select key as a, a + 'x' as s where s + 1 > 2",
 	"select b + 1 as s, a + 'y' as b, key as a where key = 'k'", "select key as a, a + 'x' as s, s * 2 as t where key = 'k'",
@@ -116,7 +125,7 @@ func runSTATIC(e *Env) (*Summary, error) {
 	for _, c := range staticContexts {
 		for _, f := range staticFaults {
 			if f.typ == c.typ {
-				if f.expr == "count(1)" && (strings.Contains(c.tmpl, "sum(%s)") || strings.HasPrefix(c.tmpl, "select %s") || strings.HasPrefix(c.tmpl, "select key, %s")) {
+				if f.expr == "count(1)" && (strings.Contains(c.tmpl, "sum(%s)") || strings.HasPrefix(c.tmpl, "select %s") || strings.HasPrefix(c.tmpl, "select key, %s") || strings.HasPrefix(c.tmpl, "select key, true | %s")) {
 					continue // covered by the nested-aggregate form below with its own message
 				}
 				jobs = append(jobs, job{fmt.Sprintf(c.tmpl, f.expr), true})
